@@ -3,8 +3,8 @@
    Print Assumptions follows every theorem.  Container level: the footer written by WriteTo parses back to the same fields for every data section; the per-term, stored and doc-value layouts are covered by C05/C06/C07; the reload of the model is the identity. *)
 
 From Coq Require Import List NArith Bool Sorting Permutation.
-From Ice Require Import Base Spec Varint Crc32 Footer Stored Run.
-From IceProofs Require Footer_Proofs Immut_Proofs Stored_Proofs.
+From Ice Require Import Base Spec Varint Chunk Crc32 Footer Stored Run Container IntCoder Postings.
+From IceProofs Require Footer_Proofs Immut_Proofs Stored_Proofs Container_Proofs IntCoder_Proofs.
 Import ListNotations.
 Open Scope N_scope.
 
@@ -23,7 +23,7 @@ Theorem parse_persist :
     ft_version := Version;
     ft_crc := crc_update (ft_crc f) (footer_body f)
     |}.
-Proof. exact Footer_Proofs.parse_persist. Qed.
+Proof. exact @Footer_Proofs.parse_persist. Qed.
 Print Assumptions parse_persist.
 
 Theorem writeto_footer_fields :
@@ -38,19 +38,19 @@ Theorem writeto_footer_fields :
     ft_dv ft = ft_dv f /\
     ft_chunkMode ft = ft_chunkMode f /\
     ft_version ft = Version /\ ft_crc ft = crc32 (drop_last 4 (segment_writeto data f)).
-Proof. exact Footer_Proofs.writeto_footer_fields. Qed.
+Proof. exact @Footer_Proofs.writeto_footer_fields. Qed.
 Print Assumptions writeto_footer_fields.
 
 (* WriteTo returns exactly the number of bytes it wrote: data + 44 *)
 Theorem writeto_length :
     forall (data : bytes) (f : footer), length (segment_writeto data f) = (length data + 44)%nat.
-Proof. exact Footer_Proofs.writeto_length. Qed.
+Proof. exact @Footer_Proofs.writeto_length. Qed.
 Print Assumptions writeto_length.
 
 Theorem merger_writeto_length :
     forall (data : bytes) (nd st fl dv cm : N),
     length (merger_writeto data nd st fl dv cm) = (length data + 44)%nat.
-Proof. exact Footer_Proofs.merger_writeto_length. Qed.
+Proof. exact @Footer_Proofs.merger_writeto_length. Qed.
 Print Assumptions merger_writeto_length.
 
 Theorem repersist_identical :
@@ -61,12 +61,12 @@ Theorem repersist_identical :
     parse_footer (segment_writeto data f) = Ok ft ->
     drop_last 44 (segment_writeto data f) = data /\
     segment_writeto (drop_last 44 (segment_writeto data f)) ft = segment_writeto data f.
-Proof. exact Footer_Proofs.repersist_identical. Qed.
+Proof. exact @Footer_Proofs.repersist_identical. Qed.
 Print Assumptions repersist_identical.
 
 Theorem parse_short :
     forall file : bytes, (length file < 44)%nat -> parse_footer file = Err.
-Proof. exact Footer_Proofs.parse_short. Qed.
+Proof. exact @Footer_Proofs.parse_short. Qed.
 Print Assumptions parse_short.
 
 (* stored blocks written by the coder read back *)
@@ -76,7 +76,7 @@ Theorem stored_roundtrip :
     nth_error docs i = Some vals ->
     visit_stored (block_of docs) (nth i (block_offsets 0 docs) 0) fields stop =
     Ok (Stored_Proofs.take_stop stop (Stored_Proofs.resolve_vals fields vals)).
-Proof. exact Stored_Proofs.block_visit. Qed.
+Proof. exact @Stored_Proofs.block_visit. Qed.
 Print Assumptions stored_roundtrip.
 
 Theorem reload_is_identity_on_the_model :
@@ -85,5 +85,158 @@ Theorem reload_is_identity_on_the_model :
     | OBuild _ _ | OMerge _ _ | OReload _ _ => False
     | _ => True
     end -> fst (step st o) = st.
-Proof. exact Immut_Proofs.step_reads_preserve. Qed.
+Proof. exact @Immut_Proofs.step_reads_preserve. Qed.
 Print Assumptions reload_is_identity_on_the_model.
+
+(* loadFields (persistFields fields) = fields: names, dictionary offsets and statistics *)
+Theorem fields_roundtrip :
+    forall (pre : bytes) (base : N) (fields : list field_rec),
+    let data := pre ++ fst (persist_fields base fields) in
+    base = lenN pre ->
+    lenN data < two63 ->
+    Forall Container_Proofs.wf_field fields ->
+    lenN fields <= 65536 -> load_fields data (snd (persist_fields base fields)) = Ok fields.
+Proof. exact @Container_Proofs.fields_roundtrip. Qed.
+Print Assumptions fields_roundtrip.
+
+(* loadStoredFieldChunk reads back the block offsets provided the fixed 10-byte look-ahead stays inside the data section ... *)
+Theorem stored_trailer_roundtrip :
+    forall (pre rest : bytes) (offsets : list N),
+    let data := pre ++ stored_trailer offsets ++ rest in
+    let storedIndexOffset := lenN (pre ++ stored_trailer offsets) in
+    lenN data < two63 ->
+    Container_Proofs.stored_wf offsets ->
+    Container_Proofs.lookahead_ok offsets (8 + lenN rest) ->
+    load_stored_chunk_offsets data storedIndexOffset = Ok offsets.
+Proof. exact @Container_Proofs.stored_trailer_roundtrip. Qed.
+Print Assumptions stored_trailer_roundtrip.
+
+(* ... and fails otherwise (the condition is exact) *)
+Theorem stored_trailer_lookahead_needed :
+    forall (pre rest : bytes) (offsets : list N),
+    let data := pre ++ stored_trailer offsets ++ rest in
+    let storedIndexOffset := lenN (pre ++ stored_trailer offsets) in
+    lenN data < two63 ->
+    Container_Proofs.stored_wf offsets ->
+    ~ Container_Proofs.lookahead_ok offsets (8 + lenN rest) ->
+    load_stored_chunk_offsets data storedIndexOffset = Err.
+Proof. exact @Container_Proofs.stored_trailer_lookahead_needed. Qed.
+Print Assumptions stored_trailer_lookahead_needed.
+
+Theorem doc_stored_offset_roundtrip :
+    forall (pre post : bytes) (docOffsets : list N) (i : nat) (v : N),
+    let data := pre ++ stored_index docOffsets ++ post in
+    lenN data < two63 ->
+    nth_error docOffsets i = Some v ->
+    v < two64 -> doc_stored_offset data (lenN pre) (N.of_nat i) = Ok (lenN pre + 8 * N.of_nat i, v).
+Proof. exact @Container_Proofs.doc_stored_offset_roundtrip. Qed.
+Print Assumptions doc_stored_offset_roundtrip.
+
+Theorem dvlocs_roundtrip :
+    forall (pre post : bytes) (locs : list (N * N)) (numDocs : N),
+    let data := pre ++ write_dv_locs locs ++ post in
+    lenN data < two63 ->
+    Forall Container_Proofs.wf_loc locs ->
+    numDocs <> 0 ->
+    Container_Proofs.lookahead_ok (Container_Proofs.flat_locs locs) (lenN post) ->
+    load_dv_locs data (lenN pre) numDocs (length locs) = Ok locs.
+Proof. exact @Container_Proofs.dvlocs_roundtrip. Qed.
+Print Assumptions dvlocs_roundtrip.
+
+Theorem dv_trailer_roundtrip :
+    forall (pre chunkData post : bytes) (chunkOffsets : list N),
+    let data := pre ++ chunkData ++ dv_trailer chunkOffsets ++ post in
+    let fieldDvLocStart := lenN pre in
+    let fieldDvLocEnd := lenN (pre ++ chunkData ++ dv_trailer chunkOffsets) in
+    lenN data < two63 ->
+    Forall (fun x : N => x < two64) chunkOffsets ->
+    chunkData <> [] \/ chunkOffsets <> [] ->
+    load_field_dv_reader data fieldDvLocStart fieldDvLocEnd = Ok (Some (fieldDvLocStart, chunkOffsets)).
+Proof. exact @Container_Proofs.dv_trailer_roundtrip. Qed.
+Print Assumptions dv_trailer_roundtrip.
+
+Theorem dv_readers_roundtrip :
+    forall (pre post : bytes) (locs : list (N * N)) (numDocs : N) (rd : N -> N -> option (N * list N)),
+    let data := pre ++ write_dv_locs locs ++ post in
+    lenN data < two63 ->
+    Forall Container_Proofs.wf_loc locs ->
+    numDocs <> 0 ->
+    Container_Proofs.lookahead_ok (Container_Proofs.flat_locs locs) (lenN post) ->
+    (forall p : N * N, In p locs -> load_field_dv_reader data (fst p) (snd p) = Ok (rd (fst p) (snd p))) ->
+    load_dv_readers data (lenN pre) numDocs (length locs) =
+    Ok (map (fun p : N * N => rd (fst p) (snd p)) locs).
+Proof. exact @Container_Proofs.dv_readers_roundtrip. Qed.
+Print Assumptions dv_readers_roundtrip.
+
+(* in the layout both writers produce (stored section, dictionaries, doc-value locations, fields section last, _id always present) every look-ahead of every loader stays inside the data section: memory- and file-backed data load alike *)
+Theorem segment_data_loads :
+    forall (blocks : list bytes) (docOffsets : list N) (dicts : bytes) (locs : list (N * N))
+    (fields : list field_rec) (numDocs : N),
+    let data := fst (segment_data blocks docOffsets dicts locs fields) in
+    let
+    '(storedIndexOffset, fieldsIndexOffset, docValueOffset) :=
+    snd (segment_data blocks docOffsets dicts locs fields) in
+    lenN data < two63 ->
+    Container_Proofs.stored_wf (0 :: coder_offsets 0 blocks) ->
+    Forall (fun x : N => x < two64) docOffsets ->
+    Forall Container_Proofs.wf_loc locs ->
+    Forall Container_Proofs.wf_field fields ->
+    lenN fields <= 65536 ->
+    fields <> [] ->
+    numDocs <> 0 ->
+    load_fields data fieldsIndexOffset = Ok fields /\
+    load_stored_chunk_offsets data storedIndexOffset = Ok (0 :: coder_offsets 0 blocks) /\
+    (forall (i : nat) (v : N),
+    nth_error docOffsets i = Some v ->
+    doc_stored_offset data storedIndexOffset (N.of_nat i) = Ok (storedIndexOffset + 8 * N.of_nat i, v)) /\
+    load_dv_locs data docValueOffset numDocs (length locs) = Ok locs.
+Proof. exact @Container_Proofs.segment_data_loads. Qed.
+Print Assumptions segment_data_loads.
+
+(* a term's chunk header and chunks written by chunkedIntCoder.Write are read back by newChunkedIntDecoder/loadChunk *)
+Theorem term_roundtrip :
+    forall zc zd : bytes -> bytes,
+    (forall b : bytes, zd (zc b) = b) ->
+    zc [] = [] ->
+    (forall b : list N, b <> [] -> zc b <> []) ->
+    forall (cs m : N) (es : list IntCoder_Proofs.entry) (rest : bytes),
+    0 < cs ->
+    m / cs + 1 < two64 ->
+    StronglySorted IntCoder_Proofs.le_doc es ->
+    Forall (fun e : N * list N => fst e <= m) es ->
+    exists c : coder,
+    run_term zc cs m es = Ok c /\
+    (lenN (co_final c) < two64 ->
+    exists (offs : list N) (data : bytes),
+    decoder_open (coder_write c ++ rest) = Some (offs, data) /\
+    length offs = N.to_nat (m / cs + 1) /\
+    (forall k : nat,
+    (k < N.to_nat (m / cs + 1))%nat ->
+    decoder_chunk zd offs data k = Ok (entries_stream cs (N.of_nat k) es))).
+Proof. exact @IntCoder_Proofs.term_roundtrip. Qed.
+Print Assumptions term_roundtrip.
+
+(* the model readers on real bytes recorded from /repo *)
+Example ex_go_two_read :
+    load_fields Container_Proofs.go_two 545 = Ok Container_Proofs.go_two_fields /\
+    load_stored_chunk_offsets Container_Proofs.go_two 49 = Ok [0; 39] /\
+    doc_stored_offset Container_Proofs.go_two 49 0 = Ok (49, 0) /\
+    doc_stored_offset Container_Proofs.go_two 49 1 = Ok (57, 20) /\
+    load_dv_locs Container_Proofs.go_two 490 2 3 = Ok Container_Proofs.go_two_locs /\
+    load_dv_readers Container_Proofs.go_two 490 2 3 = Ok [None; Some (329, [28]); Some (455, [18])].
+Proof. exact @Container_Proofs.ex_go_two_read. Qed.
+Print Assumptions ex_go_two_read.
+
+Example ex_go_two_written :
+    segment_data [firstn 39 Container_Proofs.go_two] [0; 20]
+    (firstn 425 (skipn 65 Container_Proofs.go_two)) Container_Proofs.go_two_locs
+    Container_Proofs.go_two_fields = (Container_Proofs.go_two, (49, 545, 490)) /\
+    firstn 17 (skipn 357 Container_Proofs.go_two) = dv_trailer [28] /\
+    firstn 17 (skipn 473 Container_Proofs.go_two) = dv_trailer [18].
+Proof. exact @Container_Proofs.ex_go_two_written. Qed.
+Print Assumptions ex_go_two_written.
+
+Example ex_go_empty :
+    Container_Proofs.go_empty = Container_Proofs.ex_empty_segment.
+Proof. exact @Container_Proofs.ex_go_empty. Qed.
+Print Assumptions ex_go_empty.
